@@ -137,7 +137,7 @@ func smallStream(r *core.Rand, enc string) []byte {
 		ms = []gmsg{{1, payload(r, r.Range(0, 6))}}
 	}
 	ms[r.Intn(len(ms))].flag = 1
-	return streamOf(enc, ms, []int{0, 1, 9, -2}[r.Intn(4)])
+	return streamOf(enc, ms, senderLevels[r.Intn(len(senderLevels))])
 }
 
 // genHeaders: the header block as an ORDERED field list. Systematically: 4 effective encodings x
@@ -429,5 +429,99 @@ func genStreams(r *core.Rand, cases int, emit func([]string)) {
 		}
 		core.Count(fmt.Sprintf("streams:grpc=%d,plain=%d", nGrpc, nPlain))
 		emit(ops)
+	}
+}
+
+// genCodec: the compression formats' input space beyond what one Writer.Close of the emitter's
+// kind produces (see variantEncode): every encoding x every sender variant, messages of several
+// sizes flagged compressed (mixed with uncompressed ones), cut at random. The reference decoders
+// (gzip.Reader with multistream on, flate.Reader, snappy.Reader) say what the messages are.
+func genCodec(r *core.Rand, rounds int, emit func([]string)) {
+	for round := 0; round < rounds; round++ {
+		for _, enc := range []string{"gzip", "deflate", "snappy"} {
+			for _, lv := range senderLevels {
+				if lv < 100 && round > 0 {
+					continue
+				}
+				sizes := []int{r.Range(2, 9), r.Range(10, 80), r.Range(200, 700)}
+				var ms []gmsg
+				for _, n := range sizes {
+					ms = append(ms, gmsg{1, payload(r, n)})
+					if r.Bool() {
+						ms = append(ms, gmsg{0, payload(r, r.Range(0, 6))})
+					}
+				}
+				if r.Chance(1, 4) {
+					ms = append(ms, gmsg{1, nil})
+				}
+				stream := streamOf(enc, ms, lv)
+				dir := r.Pick("c", "s")
+				eos := pickEOS(r, len(stream))
+				core.Count("codec:cases")
+				emit(buildCase(r, false, dirSpec{dir: dir, enc: enc, hdrs: planFor(r, enc).fields(r, dir), frames: randomCuts(r, stream), eos: eos}))
+			}
+		}
+	}
+}
+
+// bigThenSmall: one message of `size` bytes accumulated over frames of `frame` bytes, followed by
+// 1..3 short messages; one DATA boundary at offset `k` from the end of the big message (k < 0: inside
+// its last bytes, 0: exactly between the messages, 1..4: inside the next prefix, 5..: inside / after
+// the next payload), then the rest in one or two frames.
+func bigThenSmall(r *core.Rand, size, frame, k int) dirSpec {
+	big := make([]byte, size)
+	x := byte(r.Intn(256))
+	for i := range big {
+		big[i] = x + byte(i*7)
+	}
+	ms := []gmsg{{0, big}, {0, payload(r, r.Range(1, 6))}}
+	for r.Chance(1, 2) && len(ms) < 4 {
+		ms = append(ms, gmsg{0, payload(r, r.Range(0, 5))})
+	}
+	stream := streamOf("identity", ms, 0)
+	end := 5 + size
+	var pos []int
+	for p := frame; p < end-8; p += frame {
+		pos = append(pos, p)
+	}
+	pos = append(pos, end+k)
+	if end+k+1 < len(stream)-1 && r.Bool() {
+		pos = append(pos, r.Range(end+k+1, len(stream)-1))
+	}
+	dir := r.Pick("c", "s")
+	core.Count(fmt.Sprintf("big-then-small:size=%dKiB", size>>10))
+	core.Count(fmt.Sprintf("big-then-small:cut=%+d", k))
+	return dirSpec{dir: dir, enc: "identity", hdrs: grpcHdrs(dir, r.Pick("identity", ""), r.Bool()), frames: cutAt(stream, pos), eos: pickEOS(r, len(stream))}
+}
+
+// genBigThenSmall: large messages around the growth thresholds of the reassembly buffer (64 KiB,
+// 1 MiB, 4 MiB of capacity), followed by more messages, with the DATA boundary at every position of
+// the window [end of the big message - 2, + 8]. quick: the whole window at the 64 KiB scale, and at
+// the 1 MiB scale the boundary between the messages, two of the four positions inside the next
+// prefix and two others; thorough: the whole window at every scale.
+func genBigThenSmall(r *core.Rand, tier string, emit func([]string)) {
+	one := func(size, frame, k int) {
+		emit(buildCase(r, false, bigThenSmall(r, size, frame, k)))
+	}
+	small := []int{65536 - 7, 65536 + 3}
+	for k := -2; k <= 8; k++ {
+		one(small[r.Intn(2)]+r.Intn(3), 16384, k)
+	}
+	type scale struct{ size, frame int }
+	if tier != "thorough" {
+		ks := []int{0, 1 + r.Intn(2), 3 + r.Intn(2), []int{-2, -1}[r.Intn(2)], 5 + r.Intn(4)}
+		for i, k := range ks {
+			sc := []scale{{655000, 20000}, {1100000, 16384}}[i%2]
+			one(sc.size+r.Intn(1000), sc.frame, k)
+		}
+		return
+	}
+	for _, sc := range []scale{{140000, 16384}, {655000, 20000}, {1100000, 16384}, {2200000, 16384}} {
+		for k := -2; k <= 8; k++ {
+			one(sc.size+r.Intn(1000), sc.frame, k)
+		}
+	}
+	for _, k := range []int{0, 1 + r.Intn(4), 1 + r.Intn(4), 5 + r.Intn(4)} {
+		one(4<<20+3+r.Intn(100), 65535, k)
 	}
 }
